@@ -199,7 +199,7 @@ var clauseKeywords = map[string]bool{
 	"func": true, "extern": true, "sort": true, "const": true, "fun": true, "pred": true, "lemma": true,
 	"axiom": true, "type": true, "method": true, "returns": true, "params": true, "variant": true,
 	"induction": true, "assert": true, "assume": true, "unfold": true, "use": true, "set": true,
-	"body": true, "havoc": true,
+	"body": true, "havoc": true, "captured": true,
 }
 
 func (p *parser) parseType() *TypeExpr {
@@ -704,6 +704,9 @@ func (p *parser) parseFuncSpecBody(fs *FuncSpec) {
 		case "requires":
 			p.next()
 			fs.Requires = append(fs.Requires, p.parseClause())
+		case "captured":
+			p.next()
+			fs.Captured = append(fs.Captured, p.parseClause())
 		case "ensures":
 			p.next()
 			fs.Ensures = append(fs.Ensures, p.parseClause())
